@@ -195,7 +195,8 @@ func (x *Exec) callResult(n *vnode, what string, t types.Type) *Val {
 	}
 	v := x.freshVal("r$"+ident(hint), t)
 	if strings.HasPrefix(hint, "New") && v.T != nil {
-		if _, isPtr := t.Underlying().(*types.Pointer); isPtr {
+		_, isIface := t.Underlying().(*types.Interface)
+		if _, isPtr := t.Underlying().(*types.Pointer); isPtr || isIface {
 			// library constructors return non-nil pointers
 			x.vc.Assume(Neq(v.T, IntLit(0)))
 			x.eng.Note("result of constructor " + what + " assumed non-nil")
